@@ -46,6 +46,16 @@ def main(tier, seed):
                         "  E3 lemma 'conv output size = floor((L+2p-d(k-1)-1)/s)+1' has a satisfiable negation: %s" % (lem,)]
     extra_lines.append("E3 lemma conv output size: %s/%s queries unsat in both solvers (z3 %ss, cvc5 %ss)" % (
         lem.get("both_unsat"), lem.get("queries"), lem.get("z3_s"), lem.get("cvc5_s")))
+    rc = None
+    if tier != "quick":
+        # oracle validation: every reference definition against the PyTorch operation it claims to define
+        from .. import refcheck
+        rc = refcheck.check_catalogue(cat.REG, tier, seed)
+        extra_lines.append("reference definitions cross-checked against torch: %d configurations, %d mismatches, not mapped: %s" % (
+            rc["checked"], rc["n_mismatches"], rc["unmapped_ops"]))
+        if rc["n_mismatches"]:
+            print("HARNESS-ERROR: a reference definition disagrees with torch: %s" % (rc["mismatches"][:3],))
+            return 2
     return runner.finish(
         PROP, tier, seed, results, t0,
         bounds={"ops": sorted(cat.REG), "grid": "see vf/opcat_nn.py configs()/illegal_configs() for the tier"},
@@ -54,6 +64,6 @@ def main(tier, seed):
                      "references are index-level definitions written on scalars (vf/opcat_nn.py), cross-checked against torch in the thorough tier",
                      "cpu_ops.epsilon := 0 for log-type ops (guard effects belong to C09)"],
         stubs=["numpy creators inside synapgrad return constant symbolic arrays", "cpu_ops.epsilon := 0 where listed"],
-        extra_cov={"smt_lemma": lem}, extra_lines=extra_lines, extra_violations=extra_viol,
+        extra_cov={"smt_lemma": lem, "references_vs_torch": rc}, extra_lines=extra_lines, extra_violations=extra_viol,
         rule="one configuration = op x shapes x arguments (legal: must be accepted and equal the reference for all "
              "operand values; illegal: must raise)")
